@@ -418,7 +418,8 @@ def pool_dump(world, texts_by_mm):
     def visit(e):
         if id(e) in ids:
             return ids[id(e)]
-        k = peg.KIND.get(type(e).__name__)
+        # subclasses (e.g. textX's KeywordMatch(RegExMatch)) behave like their Arpeggio base class for the mirror
+        k = next((peg.KIND[c.__name__] for c in type(e).__mro__ if c.__name__ in peg.KIND), None)
         if k is None:
             raise peg.Unsupported(type(e).__name__)
         i = len(objs)
